@@ -459,6 +459,9 @@ namespace awkward {
     else {
       ssize_t out = itemsize_;
       for (size_t i = 0;  i < shape_.size();  i++) {
+        if (shape_[i] == 0) {
+          return 0;
+        }
         out += (shape_[i] - 1)*strides_[i];
       }
       return out;
